@@ -461,7 +461,7 @@ void spgemm_rmerge(const AMatrix &A, const BMatrix &B, CMatrix &C) {
         const int tid = 0;
 #endif
 
-        Col *t_col = &tmp_col[tid][0];
+        Col *t_col = tmp_col[tid].data();
 
 #pragma omp for
         for(Idx i = 0; i < static_cast<Idx>(A.nrows); ++i) {
